@@ -46,6 +46,8 @@ type verifEnv struct {
 	onlyNotFound bool
 	sawNotFound bool
 	sawOther    bool
+
+	goodDelivered bool
 }
 
 var verifE *verifEnv
@@ -107,9 +109,17 @@ func verifClientGet(c *shrex.Client, ctx context.Context, req any, resp any, pee
 		return shrex.ErrInvalidResponse
 	case 5:
 		e.sawOther = true
+		// a transfer that breaks after part of the payload: for a streamed
+		// square the bytes received so far are in the caller's buffer
+		if b, ok := resp.(*bytes.Buffer); ok && nd.Choice(2, "partialBytes") == 1 {
+			b.Write([]byte{0})
+		}
 		return errors.New("stream reset")
 	}
 	good := nd.Choice(2, "responseIsCommittedData") == 1
+	if good {
+		e.goodDelivered = true // an honest answer reached the getter
+	}
 	e.sawOther = true
 	p := nmt.NewInclusionProof(0, 1, nil, true)
 	switch r := resp.(type) {
@@ -233,6 +243,7 @@ func VerifH_C06_GetRowOnlyVerified() {
 	if err != nil {
 		nd.Cover("failed")
 		nd.Assert(row.IsEmpty(), "error-comes-with-no-data")
+		nd.Assert(!verifE.goodDelivered, "an-honest-answer-is-not-spoilt-by-earlier-bad-ones")
 		return
 	}
 	nd.Cover("success")
@@ -268,6 +279,7 @@ func VerifH_C06_OtherRequestTypesOnlyVerified() {
 		d, err := sg.GetNamespaceData(ctx, eh, ns)
 		if err != nil {
 			nd.Cover("nd-failed")
+			nd.Assert(!verifE.goodDelivered, "an-honest-answer-is-not-spoilt-by-earlier-bad-ones")
 			nd.Assert(len(d) == 0, "error-comes-with-no-data")
 			if verifE.onlyNotFound && verifE.attempts > 0 {
 				nd.Cover("notfound")
@@ -281,6 +293,7 @@ func VerifH_C06_OtherRequestTypesOnlyVerified() {
 		r, err := sg.GetRangeNamespaceData(ctx, eh, 0, 2)
 		if err != nil {
 			nd.Cover("range-failed")
+			nd.Assert(!verifE.goodDelivered, "an-honest-answer-is-not-spoilt-by-earlier-bad-ones")
 			nd.Assert(r.IsEmpty(), "error-comes-with-no-data")
 			if verifE.onlyNotFound && verifE.attempts > 0 {
 				nd.Assert(errors.Is(err, shwap.ErrNotFound), "not-found-is-reported-as-not-found")
@@ -293,6 +306,7 @@ func VerifH_C06_OtherRequestTypesOnlyVerified() {
 		sq, err := sg.GetEDS(ctx, eh)
 		if err != nil {
 			nd.Cover("eds-failed")
+			nd.Assert(!verifE.goodDelivered, "an-honest-answer-is-not-spoilt-by-earlier-bad-ones")
 			nd.Assert(sq == nil, "error-comes-with-no-data")
 			if verifE.onlyNotFound && verifE.attempts > 0 {
 				nd.Assert(errors.Is(err, shwap.ErrNotFound), "not-found-is-reported-as-not-found")
